@@ -44,8 +44,8 @@ fn vary(r: &mut Rng, m: &mut SModel) -> &'static str {
     }
 }
 
-const EDGE_F2: &[i64] = &[999_990_000, 1_000_000_000, -99_990_000, -100_000_000, 0, 999_980_000, -99_980_000];
-const EDGE_F3: &[i64] = &[9_999_999_000, 10_000_000_000, -999_999_000, -1_000_000_000, 0, 9_999_998_000, -999_998_000];
+const EDGE_F2: &[i64] = &[999_990_000, 1_000_000_000, -99_990_000, -100_000_000, 0, 999_980_000, -99_980_000, 999_995_000, 999_999_000, 999_990_001, -99_995_000, -99_990_001];
+const EDGE_F3: &[i64] = &[9_999_999_000, 10_000_000_000, -999_999_000, -1_000_000_000, 0, 9_999_998_000, -999_998_000, 9_999_999_500, 9_999_999_001, -999_999_500, -999_999_001];
 
 fn edge(r: &mut Rng, s: &mut SPdb) -> &'static str {
     if s.models.is_empty() { return "edge:none"; }
